@@ -98,3 +98,92 @@ def switch_op(w):
             probs += ["published: " + p for p in ok(rule, before, pub)]
     return {"reproduced": bool(probs), "detail": "; ".join(probs) or "real code agrees with the statement on this input",
             "before": before, "after": after}
+
+
+@kind("switch.enumerate")
+def enumerate_small(w):
+    """Bounded stand-in (labelled bounded, never counted as proved): every rule x
+    n in 1..nmax switches x every admissible initial configuration x every single
+    operation of the statement, against the real code."""
+    import itertools
+    nmax = w.get("nmax", 3)
+    failures, cases = [], 0
+    for rule in ("OneOfMany", "AtMostOne", "AnyOfMany"):
+        for n in range(1, nmax + 1):
+            for vals in itertools.product(("On", "Off"), repeat=n):
+                if rule != "AnyOfMany" and vals.count("On") > 1:
+                    continue
+                base = {"n": n, "rule": rule, "vals": list(vals)}
+                ops = []
+                for s in range(n):
+                    for v in ("On", "Off"):
+                        for op in ("assign", "bool_value", "set_value", "set_value_from_message"):
+                            ops.append(dict(op=op, s=s, v=v))
+                    ops.append(dict(op="selected_value", s=s))
+                for k in range(0, n + 1):
+                    for names in itertools.combinations(range(n), k):
+                        ops.append(dict(op="selected_values", names=list(names), s=0))
+                for s1 in range(n):
+                    for v1 in ("On", "Off"):
+                        ops.append(dict(op="from_new_message", writes=[[s1, v1]], s=s1, v=v1))
+                        for s2 in range(n):
+                            for v2 in ("On", "Off"):
+                                ops.append(dict(op="from_new_message", writes=[[s1, v1], [s2, v2]], s=s2, v=v2))
+                for o in ops:
+                    case = dict(base, **o)
+                    cases += 1
+                    if o["op"] == "selected_values":
+                        r = _selected_values_case(case)
+                    elif o["op"] == "from_new_message":
+                        r = _multi_case(case)
+                    else:
+                        r = switch_op(case)
+                    if r.get("reproduced"):
+                        failures.append({"witness": dict(case, replay_kind="switch.op"), "detail": r["detail"], "reproduced": True})
+                        if len(failures) >= 5:
+                            return {"cases": cases, "failures": failures}
+    return {"cases": cases, "failures": failures}
+
+
+def _selected_values_case(w):
+    d, rec, vec, rule, vals = build(w)
+    before = state(vec)
+    els = list(vec._elements.values())
+    try:
+        vec.selected_values = [els[i].name for i in w["names"]]
+    except Exception as e:
+        return {"reproduced": True, "detail": "selected_values=%r on %r (%s) raised %r" % (w["names"], before, rule, e)}
+    after = state(vec)
+    probs = ok(rule, before, after)
+    from indi import message
+    for m in rec.got:
+        if isinstance(m, message.SetSwitchVector):
+            probs += ["published: " + p for p in ok(rule, before, [c.value for c in m.children])]
+    return {"reproduced": bool(probs), "detail": "; ".join(probs)}
+
+
+def _multi_case(w):
+    from indi import message
+    from indi.message import one_parts
+    d, rec, vec, rule, vals = build(w)
+    before = state(vec)
+    els = list(vec._elements.values())
+    ch = tuple(one_parts.OneSwitch(name=els[i].name, value=x) for i, x in w["writes"])
+    try:
+        vec.from_new_message(message.NewSwitchVector(device="DEV", name="SW", children=ch))
+    except Exception as e:
+        return {"reproduced": True, "detail": "client write %r on %r (%s) raised %r" % (w["writes"], before, rule, e)}
+    after = state(vec)
+    probs = ok(rule, before, after)
+    named = {i for i, _ in w["writes"]}
+    if rule == "AnyOfMany":
+        probs += ["AnyOfMany: unnamed switch %d changed" % i for i in range(len(after)) if i not in named and after[i] != before[i]]
+    for i, x in w["writes"]:
+        pass
+    last_on = [i for i, x in w["writes"] if x == "On"]
+    if last_on and rule != "AnyOfMany" and after[last_on[-1]] != "On" and w["writes"][-1][1] == "On":
+        probs.append("switch turned On last is not On")
+    for m in rec.got:
+        if isinstance(m, message.SetSwitchVector):
+            probs += ["published: " + p for p in ok(rule, before, [c.value for c in m.children])]
+    return {"reproduced": bool(probs), "detail": "; ".join(probs)}
